@@ -1,7 +1,8 @@
 #!/venv/bin/python
-"""Diagnostic (not a registered check): run a check's quick tier with the workers under coverage.py and print, for the
-repository modules named on the command line, the lines the workload never reached.
-Usage: tools/coverage_gaps.py <Cnn> <module.py> [<module.py> ...]     (needs /venv's coverage package)"""
+"""Diagnostic (not a registered check): run checks' quick tiers with the workers under coverage.py and print, for the
+repository modules named on the command line, the functions that contain lines the combined workload never reached.
+Usage: tools/coverage_gaps.py <Cnn>[,<Cnn>...] <module.py> [<module.py> ...]     (needs /venv's coverage package)"""
+import ast
 import glob
 import os
 import shutil
@@ -11,15 +12,29 @@ import tempfile
 
 VERIF = os.path.dirname(os.path.dirname(os.path.abspath(__file__)))
 
+def functions(fn):
+    tree = ast.parse(open(fn).read())
+    out = []
+    def walk(node, prefix):
+        for ch in ast.iter_child_nodes(node):
+            if isinstance(ch, (ast.FunctionDef, ast.AsyncFunctionDef, ast.ClassDef)):
+                name = prefix + ch.name
+                if not isinstance(ch, ast.ClassDef):
+                    out.append((ch.lineno, ch.end_lineno, name))
+                walk(ch, name + '.')
+    walk(tree, '')
+    return out
+
 def main():
-    prop = sys.argv[1]
+    props = sys.argv[1].split(',')
     mods = sys.argv[2:]
     tier = os.environ.get('TIER', 'quick')
     d = tempfile.mkdtemp(prefix='verifcov.')
     try:
         env = dict(os.environ, VERIF_COVERAGE=d, VERIF_NO_EVIDENCE='1')
-        r = subprocess.run([os.path.join(VERIF, 'check'), prop, tier, '--jobs', '8'], cwd=VERIF, env=env, capture_output=True, text=True)
-        print(r.stdout.strip().splitlines()[-1])
+        for prop in props:
+            r = subprocess.run([os.path.join(VERIF, 'check'), prop, tier, '--jobs', '8'], cwd=VERIF, env=env, capture_output=True, text=True)
+            print(prop, r.stdout.strip().splitlines()[-1])
         import coverage
         cov = coverage.Coverage(data_file=os.path.join(d, 'combined'))
         cov.combine(glob.glob(os.path.join(d, 'cov.*')))
@@ -31,7 +46,14 @@ def main():
             except Exception as e:
                 print(m, 'no data:', e)
                 continue
-            print('%s: %d statements, %d never executed: %s' % (m, len(stmts), len(missing), mtext))
+            print('%s: %d statements, %d never executed' % (m, len(stmts), len(missing)))
+            miss = set(missing)
+            st = set(stmts)
+            for lo, hi, name in functions(fn):
+                body = [l for l in st if lo < l <= hi]
+                mm = sorted(l for l in body if l in miss)
+                if mm:
+                    print('  %-50s %3d/%3d missing: %s' % (name, len(mm), len(body), 'ALL' if len(mm) == len(body) else ','.join(map(str, mm[:14])) + ('...' if len(mm) > 14 else '')))
     finally:
         shutil.rmtree(d, ignore_errors=True)
 
